@@ -6,6 +6,12 @@ pub mod c_rdr;
 pub mod api;
 pub mod c_api;
 pub mod shard;
+pub mod wtr;
+pub mod c_wtr;
+pub mod link;
+pub mod c_link;
+pub mod wfa;
+pub mod c_wfa;
 
 use std::path::PathBuf;
 
@@ -36,7 +42,10 @@ pub fn main_entry() -> i32 {
   let args = parse_args();
   match args.id.as_str() {
     "C01" | "C03" | "C05" => c_rdr::run(&args),
+    "C02" => c_link::run_c02(&args),
+    "C04" => c_wtr::run_c04(&args),
     "C08" => c_api::run_c08(&args),
+    "C20" => c_wfa::run_c20(&args),
     "C09" => c_api::run_c09(&args),
     other => {
       eprintln!("unknown check {other}");
